@@ -849,6 +849,8 @@ def pick_variant(rng, op, fa, fb, la, lb):
     elif r < 0.24:
         den_a = rng.choice([(2,), (3,)])
         den_b = rng.choice([(2,), (3,)])
+    if op in ('add', 'sub') and rng.random() < 0.12:     # exactly one denominator
+        den_a, den_b = rng.choice([((2,), ()), ((), (2,)), ((3,), ()), ((), (3,)), ((1,), ()), ((), (1,))])
     a = b = None
     if qa:
         if not CLS[fa]['units']:
@@ -923,8 +925,27 @@ def gen_unary(rng, n):
     return out
 
 
+def gen_bshape(rng, n):
+    out = []
+    pool = SHAPES3
+    for _ in range(n):
+        k = rng.choice([0, 1, 2, 2, 2, 3, 3, 4])
+        shapes = []
+        base = rng.choice(pool)
+        for _ in range(k):
+            r = rng.random()
+            if r < 0.55:        # related to the base shape: compatible more often than not
+                cut = rng.randint(0, len(base))
+                shapes.append([rng.choice([x, x, 1]) for x in base[cut:]])
+            else:
+                shapes.append(list(rng.choice(pool)))
+        out.append({'op': rng.choice(['bshape', 'bshape', 'broadcast']), 'shapes': shapes,
+                    'as_objects': rng.random() < 0.5, 'cls': rng.choice(['Scalar', 'Vector3', 'Pair'])})
+    return out
+
+
 def gen_cases(rng, tier):
-    cases = []
+    cases = gen_bshape(rng, 400 if tier == 'quick' else 20000)
     pairs = form_pairs()
     # core: every operator x every ordered form pair, a compatible-looking and a random shape pair
     for op in BINOPS:
@@ -1050,6 +1071,33 @@ def kernel_table(c):
     return clist(ent, '(Z*Z*(Z*Z))')
 
 
+def coq_bshape(c, res):
+    if c['op'] != 'bshape':
+        return None
+    t = '(CBs %s)' % clist([cshape(s) for s in c['shapes']], 'shape')
+    impl = res['impl']
+    if impl['t'] == 'exc':
+        return '(%s, (OErr ValueErr))' % t
+    return '(%s, (OSh %s))' % (t, cshape(impl['shape']))
+
+
+def coq_excluded(c, ref):
+    """cases the model does not speak about: operations this property leaves to C16
+    (reference None), and the regions of the recorded findings whose repair is proposed
+    (the model states the repaired behaviour there)"""
+    if ref is None:
+        return True
+    if c['a']['form'] == 'ma':
+        return True
+    b = c.get('b')
+    nr = lambda d: len(d['numer']) if d['form'] == 'qube' else 0
+    if b and c['op'] == 'truediv' and b['form'] == 'qube' and nr(b) > 0 and nr(c['a']) == 0:
+        return True
+    if c['op'] == 'pow' and c['a'].get('cls') == 'Quaternion':
+        return True
+    return False
+
+
 def coq_case(c):
     op = c['op']
     if op in BINOPS:
@@ -1097,7 +1145,58 @@ def coq_obs(impl, ref):
 # ---------------------------------------------------------------------------
 # one case
 # ---------------------------------------------------------------------------
+def run_bshape(c, Pm):
+    """Qube.broadcasted_shape / Qube.broadcast against NumPy's broadcasting of the
+    leading shapes (items appended untouched)"""
+    shapes = [tuple(s) for s in c['shapes']]
+    item = CLS[c['cls']]['numer']
+    objs = []
+    for k, s in enumerate(shapes):
+        A = (np.arange(int(np.prod(s + item))) + 7 * k).reshape(s + item).astype(float)
+        objs.append(getattr(Pm, c['cls'])(A if A.shape else A.item()))
+    try:
+        L = tuple(np.broadcast_shapes(*shapes))
+    except ValueError:
+        L = None
+    res = {'ref': ('err',) if L is None else ('shape', L), 'direct': None, 'bad': []}
+    try:
+        with warnings.catch_warnings():
+            warnings.simplefilter('ignore')
+            if c['op'] == 'bshape':
+                got = Pm.Qube.broadcasted_shape(*(objs if c['as_objects'] else shapes))
+                res['impl'] = {'t': 'shape', 'shape': tuple(got)}
+                if L is None:
+                    res['bad'].append('accepted-but-incompatible')
+                elif tuple(got) != L:
+                    res['bad'].append('leading-shape')
+            else:
+                out = Pm.Qube.broadcast(*objs)
+                res['impl'] = {'t': 'shape', 'shape': tuple(out[0].shape) if out else ()}
+                if L is None:
+                    res['bad'].append('accepted-but-incompatible')
+                else:
+                    for o, src, s in zip(out, objs, shapes):
+                        pad = (1,) * (len(L) - len(s))
+                        want = np.broadcast_to(np.asarray(src._values_).reshape(pad + s + item), L + item)
+                        if tuple(o.shape) != L or tuple(o.numer) != item:
+                            res['bad'].append('leading-shape')
+                            break
+                        if not np.array_equal(np.asarray(o._values_), want):
+                            res['bad'].append('values')
+                            break
+    except Exception as e:      # noqa
+        name, site = lib.exc_family(e)
+        res['impl'] = {'t': 'exc', 'name': name, 'site': site, 'msg': str(e)[:160]}
+        if L is not None:
+            res['bad'].append('rejected-but-compatible')
+        elif name not in ('ValueError', 'TypeError'):
+            res['bad'].append('rejected-with-wrong-exception')
+    return res
+
+
 def run_case(c, Pm):
+    if c['op'] in ('bshape', 'broadcast'):
+        return run_bshape(c, Pm)
     res = {'ref': reference(c), 'impl': run_impl(c, Pm)}
     res['bad'] = compare(res['impl'], res['ref'])
     # reflected / mixed form vs direct form
@@ -1131,6 +1230,12 @@ def operand_constructed_ok(d, Pm):
 
 def signature(c, res):
     impl = res['impl']
+    if c['op'] in ('bshape', 'broadcast'):
+        sig = {'op': c['op'], 'why': res['bad'][0] if res['bad'] else '', 'n_shapes': len(c['shapes'])}
+        if impl['t'] == 'exc':
+            sig['exc'] = impl['name']
+            sig['site'] = impl['site']
+        return sig
     sig = {'op': c['op'], 'why': res['bad'][0] if res['bad'] else '',
            'form_a': c['a']['form'], 'cls_a': c['a'].get('cls'),
            'form_b': c.get('b', {}).get('form'), 'cls_b': c.get('b', {}).get('cls'),
@@ -1138,6 +1243,7 @@ def signature(c, res):
            'itemsize1_b': int(np.prod(c.get('b', {}).get('numer', [0]) or [1])) == 1}
     b = c.get('b')
     sig['a_is_qube'] = c['a']['form'] == 'qube'
+    sig['result_all_masked'] = bool(impl['t'] == 'obj' and impl['M'].size and impl['M'].all())
     sig['b_zero_number'] = bool(b and b['form'] in NONQ[:5] and b['vals'][0] == 0)
     nr = lambda d: len(d['numer']) if d['form'] == 'qube' else 0
     sig['scalar_over_items'] = bool(b and c['op'] == 'truediv' and b['form'] == 'qube' and nr(b) > 0
@@ -1149,10 +1255,14 @@ def signature(c, res):
 
 
 def nontrivial(c, res):
+    if c['op'] in ('bshape', 'broadcast'):
+        return len(c['shapes']) >= 2
     return isinstance(res['ref'], Res) and (res['ref'].lead != () or res['ref'].numer != ())
 
 
 def slim(c):
+    if 'a' not in c:
+        return c
     return c if len(str(c)) < 900 else {'op': c['op'], 'a': {k: v for k, v in c['a'].items() if k != 'vals'},
                                          'b': {k: v for k, v in c.get('b', {}).items() if k not in ('vals', 'mbits')}}
 
@@ -1192,17 +1302,17 @@ def run(ctx):
         ctx.prove(['theories/Props/C04.v'])
     cases = gen_cases(ctx.rng, ctx.tier)
     ctx.log('%d cases' % len(cases))
-    stride = 1 if ctx.tier == 'quick' else 8
+    stride = 1 if ctx.tier == 'quick' else 2
     terms, idx, bad = [], [], []
     for i, c in enumerate(cases):
         res = run_case(c, Pm)
         ctx.note_case(slim(c), nontrivial(c, res))
         ctx.count('op:' + c['op'])
         ctx.count('outcome:' + ('unspecified' if res['ref'] is None else
-                                'reject' if isinstance(res['ref'], tuple) else 'result'))
+                                'reject' if res['ref'] == ('err',) else 'result'))
         if res['impl']['t'] == 'exc':
             ctx.count('exc:' + res['impl']['name'])
-        if res['direct'] is not None:
+        if res.get('direct') is not None:
             ctx.count('mixed:' + ('both-accepted' if res['impl']['t'] == 'obj' and res['direct']['t'] == 'obj'
                                   else 'not-both'))
         if i % 50 == 0:
@@ -1214,8 +1324,14 @@ def run(ctx):
             ctx.fail(signature(c, res), c, {'disagreements': res['bad'], 'impl': printable(res['impl']),
                                             'reference': printable(res['ref']),
                                             'direct_form': printable(res['direct'])}, tie='model-vs-impl')
+        if c['op'] in ('bshape', 'broadcast'):
+            tm = coq_bshape(c, res)
+            if tm is not None:
+                terms.append(tm)
+                idx.append(i)
+            continue
         if i % stride == 0:
-            t = coq_case(c)
+            t = None if coq_excluded(c, res['ref']) else coq_case(c)
             o = coq_obs(res['impl'], res['ref'])
             if t is not None and o is not None:
                 terms.append('(%s, %s)' % (t, o))
